@@ -16,7 +16,7 @@ _pv_add("C04",
     "accepted if the hint's head was; value strictly inside (alpha, beta) => the WHOLE line l replays from p. A new engine is EngOK (engOK_new) and every Analyze/GetMove/AnalyzeAll call keeps EngOK (so it holds in every state an engine can reach: history_engOK). "
     "analyze_pv_head_generated: the PV Analyze returns consists of Q-moves and its head is accepted in the analysed position - hypotheses only at that position: Move.Equal moves act alike and the zero move equals no generated move (GenOK), some generated move is accepted, "
     "the children's evaluations are <= MaxEval (C18); getMove_generated (with and without the randomised choice, every random stream: the result is the zero move - only when Analyze returned an empty PV - or an accepted Q-move); "
-    "analyzeAll_heads_generated (every listed line starts with an accepted Q-move; the lines added to Analyze's PV replay in full). "
+    "analyzeAll_heads_generated (every listed line starts with an accepted Q-move; the lines added to Analyze's PV replay in full); analyze_pv_nonempty (an Analyze whose cancel flag is never set, with Cfg.Depth >= 1 on a position that is not over, returns a non-empty PV: any configuration, ANY engine state, helper Proofs/PvHeadNonEmpty.lean). "
     "pv_replays - C04's last clause at full strength, which DESIGN carried as pv_replays_partial: whenever the reported value lies in [MinEval, MaxEval], in particular whenever it is not decisive, the whole reported PV replays legally - "
     "nothing assumed about the game; engine state arbitrary without a table (pv_replays_noTable), EngOK on a collision-free domain with one (pv_replays_table). What was missing: a value strictly inside the window makes the node improve on a played move whose "
     "sub-PV comes from a full-window search with a value strictly inside the negated window (zero-window results are re-searched before they can improve without a cut-off), so exactness propagates down the PV; and the root window is (MinEval-1, MaxEval+1). "
@@ -36,9 +36,9 @@ _pv_add("C17",
     "THE SEARCHER CONTRACT DERIVED (Props/C17_pv.lean): tei_one_bestmove_at (the conclusion of tei_one_bestmove from the PV of the ONE call made: nothing assumed about the searcher elsewhere); tei_bestmove_legal_minimax / _table: where the answer to this go is the PV "
     "Search.analyze returns on the told position from the state of the cached engine (any options, any cancel oracle = deadline, any move order; engine state EngOK = a new engine or the state earlier go commands left), and the PV is not empty, Run writes the info line "
     "and 'bestmove m' with m the PV head, accepted by Position.Move in the told position, LITERALLY a member of its AllMoves - hence not the pass, a LegalShape, normal: FormatMove prints it parseably (C11) - and the engine state is EngOK again for the next go. "
-    "SearcherOK / SearcherLegal / SearcherGenerated are no longer needed where the thinker is the alpha-beta model.",
+    "minimax_pv_nonempty: the PV is not empty whenever the search is not cancelled, so such a go is answered by exactly one bestmove. SearcherOK / SearcherLegal / SearcherGenerated are no longer needed where the thinker is the alpha-beta model.",
     "SearcherOK/SearcherLegal/SearcherGenerated quantify over ALL Pos values (also malformed ones) and so cannot be instantiated by the model; the new theorems state the contract at the call made. Remaining hypotheses: the told position is WF and has a legal move (C01/C04), "
-    "the evaluator's bound (C18), and with a table the no-collision domain; an EMPTY PV (search cut off before its first iteration completed: the engine writes no bestmove, fix C13-tei-go) is excluded by hypothesis.")
+    "the evaluator's bound (C18), and with a table the no-collision domain; an EMPTY PV (search cut off before its first iteration completed: the engine writes no bestmove, fix C13-tei-go) is excluded by hypothesis, which minimax_pv_nonempty discharges for uncancelled searches.")
 
 _pv_add("C20",
     "WITH THE ALPHA-BETA MODEL AS SEARCHING PLAYER (Props/C20_pv.lean): friendly_move_legal_minimax - friendly_move_legal with its hypothesis hsearch (the searcher's answer is legal whenever it is consulted) DERIVED from C04.getMove_generated_tak and C01.move_ok_iff: "
